@@ -45,7 +45,18 @@ pub enum Case {
     /// metamorphic: file with insertions vs file without
     Insert { program: Program, insertions: Vec<Insertion> },
     /// extension records inside a prototype (names may equal standard names)
-    ProtoExt { proto_names: Vec<String>, n: u32, seed: u64 },
+    ProtoExt {
+        proto_names: Vec<String>,
+        n: u32,
+        seed: u64,
+        /// as another producer may write it: every extension record name extended by this suffix (characters XML names
+        /// allow but the crate's writer does not accept), through the XML transformer
+        #[serde(default)]
+        suffix: Option<String>,
+        /// the extension's namespace declared on the <prototype> element instead of the root element
+        #[serde(default)]
+        nested_ns: bool,
+    },
 }
 
 struct Scan {
@@ -242,6 +253,7 @@ fn write_with(p: &Program, ins: &[Insertion]) -> Result<Vec<u8>, String> {
                 let mut r: &[u8] = &data;
                 w.add_blob(&mut r).map_err(|e| e.to_string())?;
             }
+            Op::BlobFailing { .. } => {}
             Op::Image(im) => prog::exec_image(&mut w, im, &mut tr),
             Op::Cloud(c) => prog::exec_cloud(&mut w, c, &mut tr),
         }
@@ -333,7 +345,8 @@ impl Check for C18 {
         if s.chance(1, 5) {
             let k = 1 + s.below(3) as usize;
             let proto_names = (0..k).map(|_| if s.chance(2, 3) { crate::adapt::STD_NAMES[s.below(20) as usize].0.to_string() } else { crate::gen::ext_name(s) }).collect();
-            Case::ProtoExt { proto_names, n: s.below(20) as u32, seed: s.u64() }
+            let suffix = if s.chance(1, 4) { Some(s.pick(&[".x", "\u{e9}", "-2.b", ".", "\u{b7}1"]).to_string()) } else { None };
+            Case::ProtoExt { proto_names, n: s.below(20) as u32, seed: s.u64(), suffix, nested_ns: s.chance(1, 5) }
         } else {
             let program = small_program(s);
             let k = 1 + s.below(4) as usize;
@@ -438,7 +451,7 @@ impl Check for C18 {
                     }
                 }
             }
-            Case::ProtoExt { proto_names, n, seed } => {
+            Case::ProtoExt { proto_names, n, seed, suffix, nested_ns } => {
                 let mut proto: Vec<Rec> = ["cartesianX", "cartesianY", "cartesianZ"].iter().map(|n| Rec { prefix: None, name: n.to_string(), ty: RType::Single { min: None, max: None } }).collect();
                 let mut used: Vec<String> = Vec::new();
                 for (i, name) in proto_names.iter().enumerate() {
@@ -451,10 +464,23 @@ impl Check for C18 {
                     }
                     proto.push(Rec { prefix: Some(PREFIX.into()), name: name.clone(), ty: [RType::Double { min: None, max: None }, RType::Int { min: -5, max: 300 }, RType::Single { min: None, max: None }][i % 3].clone() });
                 }
-                let p = Program {
+                let mut pairs: Vec<(String, String)> = Vec::new();
+                if let Some(sfx) = suffix {
+                    v.nt("extension_record_names_the_writer_itself_would_not_accept");
+                    for name in &used {
+                        pairs.push((format!("<{PREFIX}:{name} "), format!("<{PREFIX}:{name}{sfx} ")));
+                        pairs.push((format!("</{PREFIX}:{name}>"), format!("</{PREFIX}:{name}{sfx}>")));
+                    }
+                }
+                if *nested_ns {
+                    v.nt("extension_namespace_declared_on_the_prototype_element");
+                    pairs.push((format!(" xmlns:{PREFIX}=\"{URI}\""), String::new()));
+                    pairs.push(("<prototype type=\"Structure\">".to_string(), format!("<prototype type=\"Structure\" xmlns:{PREFIX}=\"{URI}\">")));
+                }
+                let mut p = Program {
                     guid: "{c18}".into(),
                     ops: vec![Op::Ext { prefix: PREFIX.into(), url: URI.into() }, Op::Cloud(prog::CloudSpec { guid: "{c}".into(), proto, n: *n, seed: *seed, nan_ok: true, meta: Default::default(), finalize: true, clear_limits: 0, rejects: vec![] })],
-                    end: End::Finalize,
+                    end: if pairs.is_empty() { End::Finalize } else { End::FinalizeReplace(pairs) },
                 };
                 let dev = MemDev::new();
                 let h = dev.handle();
@@ -467,10 +493,23 @@ impl Check for C18 {
                     v.fail(format!("writer rejected registered extension records: {c}: {e}"));
                     return v;
                 }
+                if *nested_ns && !tr.xml_out.as_deref().map(|x| x.contains(&format!("<prototype type=\"Structure\" xmlns:{PREFIX}=")) && !x[..x.find("<data3D").unwrap_or(0)].contains(&format!("xmlns:{PREFIX}="))).unwrap_or(false) {
+                    v.infra("the transformer did not move the namespace declaration (the writer's XML layout changed?)");
+                    return v;
+                }
+                if suffix.is_some() && !used.is_empty() && !tr.xml_out.as_deref().map(|x| x.contains(&format!("<{PREFIX}:{}{} ", used[0], suffix.as_deref().unwrap_or("")))).unwrap_or(false) {
+                    v.infra("the transformer did not rename the extension records (the writer's XML layout changed?)");
+                    return v;
+                }
                 match guard(|| read_scene(MemDev::with_data(h.bytes()))) {
                     Err(pn) => v.fail(format!("reader panicked: {pn}")),
                     Ok(Err(e)) => v.fail(format!("reading failed: {e}")),
                     Ok(Ok((got, _))) => {
+                        if let (Some(sfx), Some(Op::Cloud(c))) = (suffix, p.ops.get_mut(1)) {
+                            for r in c.proto.iter_mut().filter(|r| r.prefix.is_some()) {
+                                r.name.push_str(sfx);
+                            }
+                        }
                         let exp = prog::expected_scene(&p);
                         if let Some(d) = e57ref::scene::diff_proto(&exp.clouds[0].proto, &got.clouds[0].proto, "written", "read") {
                             v.fail(format!("extension records are not reported with their prefix and name: {d}"));
